@@ -1,12 +1,12 @@
 (* C05 -- children(), parent() and parents() describe the real process tree.
-   Statements only; proofs live in C05/Lib.v, C05/Proofs.v, C05/ProofsParent.v.
+   Statements only; proofs live in C05/Lib.v, C05/Proofs.v, C05/ProofsSpec.v, C05/ProofsParent.v.
    Model: C05/Model.v (transcription of psutil/__init__.py children/parent/parents/
    ppid and _pslinux.ppid_map; [as_is] = the code as it is now, [before_fixes] = the
    code before the three repairs 6afb079 / 3959fba / e202d3b), specification: C05/Spec.v.
    t = the listed process table (pid, ppid, start ticks), any size, any parent links;
    gone = PIDs vanishing after the ppid_map() snapshot; o = the caller object;
    fuel = number of loop iterations allowed (None = exhausted = no termination). *)
-From PV Require Import C05.Spec C05.Lib C05.Proofs C05.ProofsParent.
+From PV Require Import C05.Spec C05.Lib C05.Proofs C05.ProofsSpec C05.ProofsParent.
 
 (* children(): exactly the listed processes naming the caller as parent, never the
    caller itself, still there and not started before it, in listing order *)
@@ -34,11 +34,12 @@ Theorem C05_children_rec_terminates : forall fx t gone o,
 Proof. exact children_rec_terminates. Qed.
 Print Assumptions C05_children_rec_terminates.
 
-(* the computable descendant test used by the harness only accepts descendants *)
-Theorem C05_climbs_sound : forall t gone self s0 n q,
-  climbs t gone self s0 n q = true -> desc t gone self s0 q.
-Proof. exact climbs_desc. Qed.
-Print Assumptions C05_climbs_sound.
+(* the computable descendant set the harness uses as its oracle (parent links climbed for
+   at most |t| steps) is exactly the inductive reachable set minus the caller *)
+Theorem C05_spec_descendants_exact : forall t gone self s0 q, NoDup (pids_of t) ->
+  (In q (spec_descendants t gone self s0) <-> (desc t gone self s0 q /\ q <> self)).
+Proof. intros t gone self s0 q N. exact (spec_descendants_exact t gone self s0 N q). Qed.
+Print Assumptions C05_spec_descendants_exact.
 
 (* a recycled caller: NoSuchProcess from both forms of children() *)
 Theorem C05_children_recycled : forall fx fuel t gone o, recycled_b t o = true ->
@@ -112,6 +113,14 @@ Theorem C05_parents_total : forall t cache o,
   exists l, parents as_is (S (length t)) t cache o = Val (Some l).
 Proof. exact parents_total. Qed.
 Print Assumptions C05_parents_total.
+
+(* ... namely the chain of parent() up to the root, cut before the first process already
+   met (the caller or an earlier member) when PID reuse made the links cyclic ... *)
+Theorem C05_parents_cut : forall t cache o,
+  wf_table t = true -> alive_b t o = true -> cache_fresh_b t cache = true ->
+  exists l, parents as_is (S (length t)) t cache o = Val (Some l) /\ chain_cut t [o_pid o] (o_pid o) l.
+Proof. exact parents_cut. Qed.
+Print Assumptions C05_parents_cut.
 
 (* ... which is the chain of parent() up to the root whenever that chain ends ... *)
 Theorem C05_parents_chain_complete : forall t cache o l fuel,
